@@ -416,15 +416,24 @@ struct StringStream {
         const SizeT     new_length = (Length() + len);
 
         if (Capacity() < new_length) {
-            expand(new_length);
+            // 'str' may point into this stream's own storage (appending a stream to itself):
+            // release the old block only after the new content has been copied.
+            Char_T *old_storage = grow(new_length);
+            Memory::Copy((Storage() + Length()), str, (len * size));
+            Memory::Deallocate(old_storage);
+        } else {
+            Memory::Copy((Storage() + Length()), str, (len * size));
         }
-
-        Memory::Copy((Storage() + Length()), str, (len * size));
 
         setLength(new_length);
     }
 
     void expand(const SizeT new_capacity) {
+        Memory::Deallocate(grow(new_capacity));
+    }
+
+    // Moves the content to a bigger block and returns the old one, which the caller has to deallocate.
+    Char_T *grow(const SizeT new_capacity) {
         constexpr SizeT size = sizeof(Char_T);
         Char_T         *str  = Storage();
 
@@ -436,7 +445,8 @@ struct StringStream {
 #endif
 
         Memory::Copy(Storage(), str, (Length() * size));
-        Memory::Deallocate(str);
+
+        return str;
     }
 
     void allocate(SizeT size) {
